@@ -11,7 +11,7 @@ from . import common, driver, gen, threads
 from .common import HarnessError, SimStream, outcome_of, rng_for
 
 PROP = "C17"
-TIERS = {"quick": {"budget": 60.0}, "thorough": {"budget": 840.0}}
+TIERS = {"quick": {"budget": 90.0}, "thorough": {"budget": 840.0}}
 MAX_VIOLATIONS_REPORTED = 3
 PANEL_PROBES_AFTER_NEW = 3
 
